@@ -82,7 +82,7 @@ func VerifC20Estimations() {
 	got := sizesOf(q, cid)
 	kq := append(encE(q), cid...)
 	k1, k2 := append(encE(e1), cid...), append(encE(e2), cid...)
-	collide := (q != e1 && first && hasPfx(k1, kq)) || (q != e2 && hasPfx(k2, kq))
+	collide := (q != e1 && first && (hasPfx(k1, kq) || hasPfx(kq, k1))) || (q != e2 && (hasPfx(k2, kq) || hasPfx(kq, k2)))
 	// a prefix collision between epoch encodings of different length would need a container id (a SHA-256
 	// value) that continues the epoch bytes and repeats itself shifted by one byte: assumed away (the digest
 	// stub is an arbitrary injective function, the real one does not produce such values)
@@ -96,7 +96,7 @@ func VerifC20Estimations() {
 		}
 		vAssert(vEq(got[0].From, vKey("node")) && got[0].Size == size, "C20/estimation-carries-the-node-key-and-the-last-size")
 	}
-	if vParam(0) <= vParam(1) {
+	if vParam(0) <= vParam(1) && vParam(0) == vParam(2) {
 		vCoverIf(e2-e1 > 3 && q == e1, "older-estimation-cleaned-up-by-the-next-one")
 	}
 
